@@ -80,8 +80,10 @@ class Engine:
         self.known = set(known)  # ids of active known findings whose defect model is applied
         self.excluded = Counter()
         self.fl = fl or Flavour(flavour)
+        self.build_problems = []  # nodes whose data_id / kind differ from what the spec asked for
         if tree is None:
-            self.tree, _ = build(spec or [], flavour=self.fl, typed=typed, name="T1")
+            self.tree, nodes = build(spec or [], flavour=self.fl, typed=typed, name="T1")
+            self._verify_build(spec or [], nodes)
         else:
             self.tree = tree
         if tree2 is None:
@@ -118,6 +120,26 @@ class Engine:
 
         rec(mt.root, w.kids[id(None)])
         return mt
+
+    def _verify_build(self, spec, nodes):
+        flat = []
+
+        def rec(items):
+            for it in items:
+                flat.append(it)
+                rec(it[1])
+
+        rec(spec)
+        for it, n in zip(flat, nodes):
+            o = it[2] if len(it) > 2 and it[2] else {}
+            did = o.get("id")
+            if did is None:
+                did = self.fl.explicit_default(it[0])
+            exp = did if did is not None else self.fl.auto_id(it[0], n.data)
+            if n.data_id != exp:
+                self.build_problems.append(("data_id", repr(n.data), repr(n.data_id), repr(exp)))
+            if self.typed and n.kind != (o.get("kind") or "child"):
+                self.build_problems.append(("kind", repr(n.data), n.kind, o.get("kind") or "child"))
 
     def _pair_tree2(self):
         w = walk(self.tree2)
@@ -797,7 +819,13 @@ class Engine:
         if n is None:
             return Plan("na", route)
         rn = self.real(n)
+        if label == "=":
+            # a new, equal-but-distinct data object for the node's current label (data changes, id does not)
+            label = self.fl.label(n.data)
+            fresh = True
         data = self.fl.data(label, fresh=fresh) if label is not None else None
+        if did == "=":
+            did = n.data_id  # explicitly pass the id the node already has
         kw = {}
         if did is not None:
             kw["data_id"] = did
